@@ -97,6 +97,8 @@ def netcorr(prop, tier, seed, ctx):
            "violations": [], "broken": []}
     if not r["summary"]:
         res["broken"].append("netreplay produced no summary (driver failure)")
+    if r.get("diffs"):
+        res["broken"].append(f"protocol correspondence: the real histories differ from the model with the extracted switches on {len(r['diffs'])} history(ies), first: {r['diffs'][0]}")
     for f in r["failing"]:
         msg = f["fail"]
         props = set()
